@@ -22,6 +22,12 @@ search       point x the grammar under sys.addaudithook; kernel-judged locations
              returns within its time / memory limit (runaway; harness/lib/bounded.py).  Two arrangements:
              pathfs.standard_spec (symlink cycles included) and pathfs.acyclic_spec (cycle-free, outward /
              inward / sibling directory links at depth >= 1 below the prefixes that get listed).
+             HISTORIES: one long-lived LocalStorageBackend / DataFileManager / Table handle uses a string, the
+             arrangement inside the root is CHANGED (directory -> outward link, files -> outward links,
+             subdirectory -> outward link, directory -> sibling link, metadata -> outward link, outward link ->
+             directory), and the same handle uses the string again; every use is judged against the arrangement
+             current at that use (pathaudit.run_history), and differentially against the stateless model
+             (hist-resolve / hist-arrow / hist-listing).
 """
 from __future__ import annotations
 
@@ -67,7 +73,9 @@ MANIFEST_ENTRY = {
                   "(C17_resolve_is_kernel_location); likewise _get_arrow_path's three-way split (C17_arrow_inside); list_files yields "
                   "only '..'-free names of files below the resolved prefix (C17_listing_relative) and scans only real, link-free "
                   "directories at or below it -- never through a directory link, inward or outward (C17_listing_scans_inside); every entry point of the table "
-                  "regenerated from the source hands the OS only its guard's result or that result's parent (C17_entrypoints); "
+                  "regenerated from the source hands the OS only its guard's result or that result's parent (C17_entrypoints), also at "
+                  "every step of a history in which the arrangement changes between uses of one handle -- a handle carries no "
+                  "validated-path state (C17_history_inside, C17_history_stateless); "
                   "commonpath containment is component-wise prefix (C17_commonpath_prefix); fuel = number of links suffices "
                   "(C17_fuel_sufficient); the resolver as found is refuted by a concrete tree (C17_legacy_resolver_refuted). Model tied "
                   "to the code by golden-shape / taint translation of the guards and by differential execution against real symlink "
@@ -782,7 +790,7 @@ def corr_paths(ctx, strings: Sequence[str], arrangement: str = "standard") -> No
             dfm = pathaudit.make_dfm(base)
             # thorough: the depth-4 grammar is exhaustive for the direct root; the other spellings take every k-th string
             big = len(strings) > 10000
-            subset = strings if bi == 0 else (strings[:: 3] if big else strings) if bi == 1 else strings[:: 23 if big else 7]
+            subset = strings if bi == 0 else (strings[:: 5] if big else strings) if bi == 1 else strings[:: 23 if big else 7]
             cwd_c = coq_list(codes.loc(cwd))
             base_c = coq_list(codes.pstr(base))
             for p in subset:
@@ -930,7 +938,9 @@ def run(ctx) -> None:
                 "(outward / inward / sibling DIRECTORY links at depth >= 1 below listed prefixes) x every storage entry point x its own "
                 "prefix grammar, and untampered table operations (garbage_collect, scan, append+gc, row_count) over both arrangements; "
                 "every library call runs under a time limit, a memory limit and a hard limit (harness/lib/bounded.py); a case is "
-                "distinct by (arrangement, entry point, root spelling, string)")
+                "distinct by (arrangement, entry point, root spelling, string); histories: (handle kind) x (first-use entry point) x "
+                "(6 arrangement changes) x (second-use entry point) x affected strings x root spelling on ONE long-lived handle, plus "
+                "change / change-again sequences")
     ctx.trusted_base += [
         "translator/gen_path.py (golden AST shapes of canonical_path, _resolve_path, _get_arrow_path, list_files' guard, write guards; regenerated constants)",
         "Model/Path.v's rendering of CPython 3.12 posixpath.realpath/_joinrealpath/commonpath/relpath/join and of the kernel path walk "
@@ -979,7 +989,7 @@ def run(ctx) -> None:
         staged('corr_acyclic', lambda: corr_paths(ctx, pathfs.grammar(2 if quick else 3, pathfs.ACYCLIC_COMPONENTS), arrangement="acyclic"))
         staged('corr_history', lambda: corr_history(ctx))
         staged('corr_entries', lambda: corr_entries(ctx, obs_ws, obs, 3))
-        staged('corr_random', lambda: corr_random_trees(ctx, 60 if quick else 600, 25))
+        staged('corr_random', lambda: corr_random_trees(ctx, 60 if quick else 400, 25))
     except RuntimeError as e:
         ctx.proof_problems.append("model evaluation failed: " + str(e)[:800])
     ctx.stats["bounded_calls"] = {"soft_limit_s": guard.soft_s, "hard_limit_s": guard.hard_s, "memory_limit_mb": guard.mem_mb,
